@@ -68,6 +68,11 @@ SCRIPTS[("C07", "f20_pre_started_error_with_native_cancel_of_starter")] = ("F20:
     (S.NEWROOT,), (S.GNEW, 1), (S.GENTER, 1, 1), (S.START, 1, 1), (S.RUNSTEP, 2), (S.HOLD, 2, 7), (S.FINISH, 2, 0),
     (S.RUNTASKDONE, 2), (S.NATIVECANCEL, 1), (S.RUNWAKE, 1)])
 SCRIPTS[("C02", "f20_pre_started_error_with_native_cancel_of_starter")] = SCRIPTS[("C07", "f20_pre_started_error_with_native_cancel_of_starter")]
+SCRIPTS[("C02", "f23_child_fails_under_parent_cancel_then_group_shielded")] = ("F23: the scope around a task group is cancelled, child B fails and its task_done callback runs, then the host shields the group's scope: the group's OWN scope must have been cancelled by the failure, and child A (asleep inside a shield) must be cancelled once it leaves its shield", [
+    (S.NEWROOT,), (S.NEWSCOPE, 1, -1, 0), (S.ENTER, 1, 1), (S.GNEW, 1), (S.GENTER, 1, 1), (S.SPAWN, 1, 1), (S.SPAWN, 1, 1),
+    (S.RUNSTEP, 2), (S.NEWSCOPE, 2, -1, 1), (S.ENTER, 2, 5), (S.SLEEP, 2, -1), (S.RUNSTEP, 3), (S.CANCEL, 1, 1),
+    (S.RUNWAKE, 3), (S.HOLD, 3, 7), (S.FINISH, 3, 0), (S.RUNTASKDONE, 3), (S.RUNWAKE, 1), (S.SETSHIELD, 1, 2, 1),
+    (S.EXTCANCEL, 5), (S.RUNWAKE, 2), (S.EXIT, 2, 5, 0), (S.YIELD, 2), (S.RUNDELIVER, 2), (S.RUNSTEP, 2)])
 
 def main():
     for (pid, name), (what, script) in SCRIPTS.items():
